@@ -28,6 +28,7 @@ CONSTANTS
   TrampFlushed = TRUE
   Regen = FALSE
   SavedFrom = "install"
+  VerifierStep = "first"
   RestoreMayFail = FALSE
   LockByHand = FALSE
   ForeignReuse = TRUE
@@ -37,5 +38,5 @@ CONSTANTS
   MaxCtr = 2
 CONSTRAINT Bound
 INVARIANT ForeignIntact TypeOK Restored LatestWins NoWildAtUser OnlyNamed Mutex HolderIsLock NoAbort Reusable IdleClean NoLeak FreeOnce FlushedAtUser NoFault NoSelfDeadlock WX
-PROPERTY FreshCount RefusedUntouched
+PROPERTY FreshCount RefusedUntouched ResetBeforeLive
 CHECK_DEADLOCK FALSE
